@@ -299,7 +299,7 @@ static std::string async_roundtrip(Env &e, bool ha) {
 	std::string out; int res;
 	KSI_AsyncService *svc = nullptr;
 	KSI_AsyncHandle *pending[4] = {nullptr, nullptr, nullptr, nullptr}; // created but not (yet) accepted: still ours
-	int accepted = 0, responses = 0, errors = 0, returned = 0, sigs = 0;
+	int accepted = 0, responses = 0, errors = 0, returned = 0, sigs = 0, fired_round = -1, late_error = 0;
 	std::string uri1 = "ksi+tcp://async1.sim:4001", uri2 = "ksi+tcp://async2.sim:4002";
 	CK(ha ? KSI_SigningHighAvailabilityService_new(e.ctx, &svc) : KSI_SigningAsyncService_new(e.ctx, &svc), "service_new");
 	if (ha) {
@@ -320,15 +320,24 @@ static std::string async_roundtrip(Env &e, bool ha) {
 	}
 	for (int round = 0; round < 40 && returned < accepted; round++) {
 		KSI_AsyncHandle *h = nullptr; size_t waiting = 0;
+		uint64_t fired0 = A.fired;
 		res = KSI_AsyncService_run(svc, &h, &waiting);
+		if (A.fired > fired0) fired_round = round;
 		if (res != KSI_OK) { out = E(res, "run"); goto done; }
 		if (h) {
 			int st = 0; KSI_AsyncHandle_getState(h, &st);
 			if (st == KSI_ASYNC_STATE_RESPONSE_RECEIVED) {
 				responses++; returned++;
 				KSI_Signature *s = nullptr;
+				uint64_t f1 = A.fired;
 				if (KSI_AsyncHandle_getSignature(h, &s) == KSI_OK) { sigs++; KSI_Signature_free(s); }
-			} else if (st == KSI_ASYNC_STATE_ERROR) { errors++; returned++; }
+				else if (A.fired == f1 && fired_round >= 0 && round - fired_round > 1) late_error = KSI_UNKNOWN_ERROR;
+			} else if (st == KSI_ASYNC_STATE_ERROR) {
+				errors++; returned++;
+				// a failure that no call reported when the allocation failed, and that surfaces only (much) later as a request error
+				int herr = 0; KSI_AsyncHandle_getError(h, &herr);
+				if (herr != KSI_OUT_OF_MEMORY && fired_round >= 0 && round - fired_round > 2) late_error = herr;
+			}
 			KSI_AsyncHandle_free(h);
 		} else {
 			K.advance(300);
@@ -338,6 +347,7 @@ static std::string async_roundtrip(Env &e, bool ha) {
 	}
 	// C13 identity after the fault: everything accepted was handed back exactly once
 	if (returned != accepted) out = "LOST:" + std::to_string(accepted - returned);
+	else if (late_error && !ha) { char b[64]; snprintf(b, sizeof b, "SWALLOWED:0x%x", late_error); out = b; }
 	else if (errors || sigs != responses) out = "E:request-level-error:" + std::to_string(errors) + "e" + std::to_string(responses - sigs) + "nosig"; // the failure surfaced through a handle
 	else out = "OK:" + std::to_string(responses) + "r" + std::to_string(sigs) + "s";
 done:
@@ -529,6 +539,8 @@ struct AllocEngine : run::Engine {
 			bool persistent = p.c("fail_from") != 0; // every allocation fails from some point on: no request can be completed any more
 			if (o.r1.compare(0, 5, "LOST:") == 0 && persistent) K.count("outcome.no_progress_under_persistent_failure");
 			else if (o.r1.compare(0, 5, "LOST:") == 0) K.fail("C19", "request-lost-after-failed-allocation", std::string(cn) + "@" + o.fail_site, "%s: after a failed allocation in %s an accepted request was never handed back (%s)", desc.c_str(), o.fail_site.c_str(), o.r1.c_str());
+			else if (o.r1.compare(0, 10, "SWALLOWED:") == 0 && !persistent && fa.size() == 1) K.fail("C19", "failed-allocation-swallowed", std::string(cn) + "@" + o.fail_site, "%s: the call in which the allocation in %s failed reported nothing, and the request it was serving ended much later with another error (%s) instead of the fault-free result", desc.c_str(), o.fail_site.c_str(), o.r1.c_str());
+			else if (o.r1.compare(0, 10, "SWALLOWED:") == 0) K.count("outcome.late_error_under_several_failures");
 			else if (!r1_err && o.r1 != base) K.fail("C19", "wrong-result-after-failed-allocation", std::string(cn) + "@" + o.fail_site, "%s: with allocation(s) failing the operation reported success with another result than fault-free (%s vs %s)", desc.c_str(), o.r1.substr(0, 60).c_str(), base.substr(0, 60).c_str());
 			if (!o.fired && o.r1 != base) K.fail("C19", "harness-baseline-unstable", cn, "%s: result differs without any fault", desc.c_str());
 			if (o.r2 != base) K.fail("C19", "not-usable-after-failed-allocation", std::string(cn) + "@" + o.fail_site, "%s: repeating the operation without the fault on the same context gives %s instead of %s (first attempt: %s)", desc.c_str(), o.r2.substr(0, 60).c_str(), base.substr(0, 60).c_str(), o.r1.substr(0, 40).c_str());
